@@ -16,7 +16,7 @@ func init() {
 		ID:    "C17",
 		Level: "exploration",
 		Rule: "a case is one begin-sorted chunk list x every provided strategy (Identity, Adjacent, Squash, Compressor(n) for each threshold); the oracle is interval arithmetic on File<<16|Block written independently of the library. " +
-			"Enumerated cases: every begin-sorted list of length <= L (quick 3, thorough 5) over the 21 chunks with Begin<=End on offsets {0,1,2}x{0,1}, thresholds {0,1,2} (complete enumeration of that space; includes empty, nested, touching, duplicate and zero-length chunks). Random cases: lists up to 200 chunks, files up to 2^40, thresholds {0,1,65536,2^32}. " +
+			"Enumerated cases: every begin-sorted list of length <= L (quick 3, thorough 5) over the 21 chunks with Begin<=End on offsets {0,1,2}x{0,1}, thresholds {0,1,2} (complete enumeration of that space; includes empty, nested, touching, duplicate and zero-length chunks). Random cases: lists up to 200 chunks, files up to 2^47 (and lists straddling 2^40..2^47), thresholds {-1,0,1,65536,2^32,2^44,2^47,2^48-1,2^48,2^62}. " +
 			"A list is non-trivial when it has >= 2 chunks of which two overlap, touch or nest; distinct = distinct lists.",
 		Floor:       map[string]int{"quick": 3000, "thorough": 300000},
 		Plan:        c17Plan,
@@ -272,7 +272,7 @@ func c17Run(c core.Case) *core.Result {
 		r.Sample = fmt.Sprintf("all %d begin-sorted lists of length<=%d starting with %s", lists, L, chunkStr(alpha[first:first+1]))
 	case "random":
 		rng := c.Rng()
-		strats := mkStrats([]int64{0, 1, 65536, 1 << 32})
+		strats := mkStrats([]int64{0, 1, 65536, 1 << 32, -1, 1 << 44, 1 << 47, 1<<48 - 1, 1 << 48, 1 << 62})
 		n := c.Int("n")
 		var nt int64
 		seen := map[string]bool{}
@@ -307,8 +307,14 @@ func c17RandList(rng *rand.Rand) []bgzf.Chunk {
 		n = rng.Intn(200)
 	}
 	// file scale: small (dense overlaps) or large
-	var scale int64
-	switch rng.Intn(4) {
+	var scale, base int64
+	switch rng.Intn(6) {
+	case 4:
+		scale = 1 << 47 // the largest file offset a virtual offset can hold is 2^48-1
+	case 5:
+		// around a large power of two: offsets on both sides of it
+		base = int64(1)<<uint(40+rng.Intn(8)) - 8
+		scale = 16
 	case 0:
 		scale = 4
 	case 1:
@@ -328,7 +334,7 @@ func c17RandList(rng *rand.Rand) []bgzf.Chunk {
 		default:
 			blk = uint16(rng.Intn(65536))
 		}
-		return bgzf.Offset{File: rng.Int63n(scale), Block: blk}
+		return bgzf.Offset{File: base + rng.Int63n(scale), Block: blk}
 	}
 	cs := make([]bgzf.Chunk, 0, n)
 	for i := 0; i < n; i++ {
